@@ -79,7 +79,11 @@ impl Gates for NoGates {
 
 const LOCAL_NAMES: [&str; 6] = ["a", "b", "c", "x", "y", "z"];
 // the last four need escapes in the goml literal and in the emitted Go literal
-const STRS: [&str; 12] = ["", "a", "go", "ml", "x y", "Zz", "0", "héé", "a\nb", "q\"q", "b\\s", "\tT"];
+const STRS: [&str; 13] = [
+    "", "a", "go", "ml", "x y", "Zz", "0", "héé", "a\nb", "q\"q", "b\\s", "\tT",
+    // longer than any line width a pretty printer may wrap at
+    "the quick brown fox jumps over the lazy dog and keeps running until the line is well past one hundred and twenty columns wide",
+];
 
 /// (name, gate) — gate = shape label closed by an open known finding
 const HOSTILE_FNS: [(&str, &str); 40] = [
@@ -102,7 +106,8 @@ const HOSTILE_TYPES: [(&str, &str); 13] = [
 const HOSTILE_FIELDS: [&str; 14] = [
     "func", "range", "var", "chan", "map", "select", "defer", "switch", "value", "len", "x_0", "interface", "goto", "nil",
 ];
-const HOSTILE_LOCALS: [&str; 16] = [
+const HOSTILE_LOCALS: [&str; 17] = [
+    "a_local_variable_with_a_name_that_is_seventy_something_characters_long_x",
     "len", "nil", "t1", "ret0", "mtmp0", "x", "func", "var", "range", "chan", "a__1", "string2", "append", "fmt", "cond0", "any",
 ];
 
